@@ -30,9 +30,14 @@ ORACLE_SYNC_IDS = {b"LIST": 0x5453494c, b"DENT": 0x544e4544, b"STAT": 0x54415453
 def check(ctx, R):
     T = terms(ctx)
     _formats(ctx, R)
+    from .c08 import buffered_reader, record_reader, record_generator
     for roles in all_roles(ctx):
         _list(ctx, R, roles, T)
         _stat(ctx, R, roles, T)
+        # "any packetisation of the replies": the record / buffered readers both operations rest on
+        buffered_reader(ctx, R, roles, T)
+        record_reader(ctx, R, roles, T)
+        record_generator(ctx, R, roles, T)
     R.assume("the record reader returns (id, header fields between id and length, payload) - checked in C08")
 
 
